@@ -13,7 +13,8 @@ Lemma read_loop_no_escape fuel lim tn : c_catch_all K = true -> forall x total n
   snd (read_loop K fuel lim tn x total notes) = false.
 Proof.
   intro Hc. induction fuel as [|f IH]; intros x total notes; cbn [read_loop]; [reflexivity|].
-  destruct (prepare_read ideal (c_cap K) (q x)) as [q1 [off|]]; [|reflexivity].
+  destruct (prepare_read ideal (c_cap K) (q x)) as [q1 r0]. destruct (u_blocked K x); [reflexivity|].
+  destruct r0 as [off|]; [|reflexivity].
   destruct (qev x) as [|e rest]; [reflexivity|].
   destruct (negb (c_grace K =? 0) && (tn <? ets e)); [reflexivity|].
   rewrite Hc.
@@ -28,13 +29,13 @@ Qed.
 
 (* the head record is consumed whatever its formatter does: one iteration of the loop on a readable
    record within the timestamp limit moves it to the transit buffer *)
-Lemma read_one_consumes lim tn x e rest q1 off : c_catch_all K = true ->
+Lemma read_one_consumes lim tn x e rest q1 off : c_catch_all K = true -> u_blocked K x = false ->
   prepare_read ideal (c_cap K) (q x) = (q1, Some off) -> qev x = e :: rest ->
   (negb (c_grace K =? 0) && (tn <? ets e)) = false ->
   exists x1 total notes, read_loop K 1 lim tn x 0 [] = (x1, total, notes, false) /\
     qev x1 = rest /\ tbuf x1 = tbuf x ++ [e] /\ total = esz e /\ notes = fmt_notes e.
 Proof.
-  intros Hc Hp Hq Ht. cbn [read_loop]. rewrite Hp, Hq, Ht, Hc.
+  intros Hc Hb Hp Hq Ht. cbn [read_loop]. rewrite Hp, Hb, Hq, Ht, Hc.
   set (cap1 := if tcap x =? N.of_nat (length (tbuf x)) then 2 * tcap x else tcap x).
   exists (sh (fun u => u_finish_read (esz e) (u_prepare_read K u)) (set_thr_tbuf (set_thr_q x (finish_read ideal q1 (esz e)) rest) (tbuf x ++ [e]) cap1)), (esz e), (fmt_notes e).
   destruct (efmt e); destruct (ekind e);
